@@ -21,6 +21,77 @@ RDATA_FIELDS = {"DnsAddress": {"address", "interface_id"}, "DnsPointer": {"alias
                 "DnsTxt": {"text"}, "DnsHostInfo": {"cpu", "os"}, "DnsNSec": {"next_domain", "type_bitmap"}}
 
 
+def _exact_compare_fields(P, g, depth=0):
+    """(entry compared?, set of struct fields) that function g compares for exact equality: `==`/`!=` on values derived
+    from the fields, directly or through a crate helper that itself only compares its parameters exactly"""
+    gtr = tracer(P, g)
+    seen = set()
+    entry = False
+
+    def fields_of(e):
+        nonlocal entry
+        out = set()
+        for x in walk(e):
+            if x[0] == "field" and isinstance(x[2], str):
+                if x[2] == "entry":
+                    entry = True
+                elif x[2] not in ("record", "0"):
+                    out.add(x[2])
+        return out
+    for b, t in g.calls():
+        if method(cname(t)) in ("eq", "ne"):
+            for a in t["args"]:
+                seen |= fields_of(gtr.operand(a, endpos(g, b)))
+        elif depth < 2:
+            for tg in P.call_targets(t):
+                k = P.fns.get(tg)
+                if k is None or k.name == g.name or k.in_tests() or k.is_closure:
+                    continue
+                if _compares_params_exactly(P, k):
+                    for a in t["args"]:
+                        seen |= fields_of(gtr.operand(a, endpos(g, b)))
+                    e2, s2 = _exact_compare_fields(P, k, depth + 1)       # `self.text == other.text` inside the helper
+                    entry = entry or e2
+                    seen |= s2
+    for b, i, s_ in g.assigns():
+        if s_["r"]["k"] == "binop" and s_["r"]["op"] == "Eq":
+            e = gtr.rvalue(s_["r"], (b, i))
+            seen |= {f for f in fields_of(e) if f != "entry"}
+    return entry, seen
+
+
+def _compares_params_exactly(P, k):
+    """k returns the outcome of `==` comparisons of (projections of) its parameters, nothing weaker"""
+    ktr = tracer(P, k)
+    cmp_calls = [(b, t) for b, t in k.calls() if method(cname(t)) in ("eq", "ne")]
+    other = [(b, t) for b, t in k.calls() if method(cname(t)) not in ("eq", "ne", "deref", "as_ref", "as_slice", "as_str", "as_bytes", "borrow", "len")]
+    if not cmp_calls or other:
+        return False
+    for rb in k.exits():
+        for a in strip(ktr.local(0, endpos(k, rb))):
+            if a[0] == "call" and method(strip_generics(a[1])) in ("eq", "ne"):
+                continue
+            if a[0] == "const":
+                continue
+            return False
+    return True
+
+
+def matches_coverage(ctx, P, pre, types=None):
+    """every matches() impl compares the entry and every RDATA field of its struct for exact equality"""
+    for ty, flds in RDATA_FIELDS.items():
+        if types and ty not in types:
+            continue
+        g = P.one("<dns_parser::%s as dns_parser::DnsRecordExt>::matches" % ty)
+        entry, seen = _exact_compare_fields(P, g)
+        adt_fields = set(P.adt_fields("dns_parser::" + ty)) - {"record"}
+        ok = entry and adt_fields <= seen
+        ctx.ob(pre + ".matches-field-coverage", g.name, ok, g.loc(), "matches() compares the entry and every field of %s exactly: %s (struct has %s)" % (ty, sorted(seen), sorted(adt_fields)))
+        # only against the same concrete type
+        ok2 = bool([b for b, t in g.calls() if "downcast_ref" in cname(t)])
+        ctx.ob(pre + ".matches-same-type", g.name, ok2, g.loc(), "matches() first downcasts the other record to the same type")
+
+
 def clause_a(ctx, P, pre="C10a"):
     f = P.one("DnsRecordExt::suppressed_by_answer")
     tr = tracer(P, f)
@@ -53,34 +124,7 @@ def clause_a(ctx, P, pre="C10a"):
         ctx.ob(pre + ".conjunction", f.name, okc and okr, f.loc(), "result = matches(other) && (ttl comparison): false constant or the comparison itself")
         a1 = tr.operand(m[0][1]["args"][1], endpos(f, m[0][0]))
         ctx.ob(pre + ".matches-other", f.name, strip(a1) == {("param", 2)}, f.loc(), "matches() is applied to the listed answer")
-    # matches impls: field coverage
-    for ty, flds in RDATA_FIELDS.items():
-        g = P.one("<dns_parser::%s as dns_parser::DnsRecordExt>::matches" % ty)
-        gtr = tracer(P, g)
-        seen = set()
-        entry = False
-        for b, t in g.calls():
-            if method(cname(t)) in ("eq", "ne"):
-                for a in t["args"]:
-                    e = gtr.operand(a, endpos(g, b))
-                    for x in walk(e):
-                        if x[0] == "field" and isinstance(x[2], str):
-                            if x[2] == "entry":
-                                entry = True
-                            elif x[2] not in ("record", "0"):
-                                seen.add(x[2])
-        for b, i, s in g.assigns():
-            if s["r"]["k"] == "binop" and s["r"]["op"] == "Eq":
-                e = gtr.rvalue(s["r"], (b, i))
-                for x in walk(e):
-                    if x[0] == "field" and isinstance(x[2], str) and x[2] not in ("record", "0", "entry"):
-                        seen.add(x[2])
-        adt_fields = set(P.adt_fields("dns_parser::" + ty)) - {"record"}
-        ok = entry and adt_fields <= seen
-        ctx.ob(pre + ".matches-field-coverage", g.name, ok, g.loc(), "matches() compares the entry and every field of %s: %s (struct has %s)" % (ty, sorted(seen), sorted(adt_fields)))
-        # only against the same concrete type
-        ok2 = bool([b for b, t in g.calls() if "downcast_ref" in cname(t)])
-        ctx.ob(pre + ".matches-same-type", g.name, ok2, g.loc(), "matches() first downcasts the other record to the same type")
+    matches_coverage(ctx, P, pre)
     # DnsEntry equality covers name, type, class, cache_flush (derived PartialEq) - struct fields
     ef = P.adt_fields("dns_parser::DnsEntry")
     ctx.ob(pre + ".entry-fields", "dns_parser::DnsEntry", set(ef) == {"name", "ty", "class", "cache_flush"}, "", "DnsEntry (derived PartialEq) = %s" % ef)
